@@ -342,10 +342,151 @@ static void enum_body(seqx::Runner &R, int maxb, int maxc, std::vector<int> &bs)
     }
 }
 
+// ---------------------------------------------------------------------------------------------- accumulating body, item with a visible move
+// the body keeps using the object it yields (acc = acc*10 + i; co_yield acc): whatever style fetches an item, the body's own
+// object stays intact, and after the end co_await next() answers false like next() does
+struct AccItem {
+    int v = 0, chk = ~0;
+    AccItem() = default;
+    AccItem(const AccItem &o) : v(o.get()), chk(~v) {}
+    AccItem(AccItem &&o) noexcept : v(o.get()), chk(~v) { o.poison(); }
+    AccItem &operator=(const AccItem &o) {
+        v = o.get();
+        chk = ~v;
+        return *this;
+    }
+    AccItem &operator=(AccItem &&o) noexcept {
+        v = o.get();
+        chk = ~v;
+        o.poison();
+        return *this;
+    }
+    void add(int i) {
+        v = get() * 10 + i;
+        chk = ~v;
+    }
+    void poison() {
+        v = -7777;
+        chk = 0;
+    }
+    int get() const { return chk == ~v ? v : -7777; }
+};
+static cocls::generator<AccItem> acc_body(int n) {
+    AccItem acc;
+    for (int i = 1; i <= n; i++) {
+        acc.add(i);
+        co_yield acc;
+    }
+}
+enum AS { AS_NEXT = 0, AS_CALL, AS_CONEXT, AS_COCALL, NAS };
+static const char *as_names[] = {"next/value", "call+wait", "co_await-next", "co_await-call"};
+static cocls::async<void> acc_co(cocls::generator<AccItem> &g, int style, int &kind, int &val) {
+    try {
+        if (style == AS_CONEXT) {
+            bool more = co_await g.next();
+            if (more) {
+                kind = 1;
+                val = g.value().get();
+            } else
+                kind = 2;
+        } else {
+            cocls::future<AccItem> f = g();
+            bool hv = co_await f.has_value();
+            if (hv) {
+                kind = 1;
+                val = f.value().get();
+            } else
+                kind = 2;
+        }
+    } catch (const cocls::no_more_values_exception &) {
+        kind = 4;
+    } catch (...) {
+        kind = 9;
+    }
+}
+static void run_acc(seqx::Runner &R, int n, const std::vector<int> &styles) {
+    std::ostringstream d;
+    d << "accumulating;n=" << n << ";styles=";
+    for (size_t i = 0; i < styles.size(); i++) d << (i ? "," : "") << styles[i];
+    R.begin(d.str());
+    int64_t base = seqx::live_allocs();
+    {
+        auto gen = std::make_unique<cocls::generator<AccItem>>(acc_body(n));
+        int expect = 0;
+        for (size_t i = 0; i < styles.size() && !R.case_fail; i++) {
+            int kind = 0, val = 0;
+            R.step();
+            try {
+                if (styles[i] == AS_NEXT) {
+                    if (gen->next()) {
+                        kind = 1;
+                        val = gen->value().get();
+                    } else
+                        kind = 2;
+                } else if (styles[i] == AS_CALL) {
+                    cocls::future<AccItem> f = (*gen)();
+                    if (f.has_value()) {
+                        kind = 1;
+                        val = f.value().get();
+                    } else
+                        kind = 2;
+                } else
+                    acc_co(*gen, styles[i], kind, val).detach();
+            } catch (const cocls::no_more_values_exception &) {
+                kind = 4;
+            } catch (...) {
+                kind = 9;
+            }
+            bool want_value = (int)i < n;
+            if (want_value) {
+                expect = expect * 10 + (int)i + 1;
+                if (kind != 1 || val != expect)
+                    R.fail(kind == 1 ? "gen/wrong-value" : "gen/wrong-position", "accumulating body, access #%zu (%s): observed kind=%d val=%d, the body yields %d there", i, as_names[styles[i]], kind, val, expect);
+            } else if ((int)i == n) {
+                if (kind != 2) R.fail("gen/wrong-position", "accumulating body, access #%zu (%s): observed kind=%d val=%d, the sequence ends there", i, as_names[styles[i]], kind, val);
+            } else if (kind != 2 && kind != 4)  // asking again after the end: another end indication, or no_more_values
+                R.fail("gen/wrong-position", "accumulating body, access #%zu (%s) after the end: observed kind=%d val=%d", i, as_names[styles[i]], kind, val);
+        }
+        if (!R.case_fail && (int)styles.size() > n) {
+            // the end has been seen: the two flavours of next() must keep telling the same story (no hand-written expectation)
+            int ks = 0, kc = 0, dummy = 0;
+            try {
+                ks = gen->next() ? 1 : 2;
+            } catch (const cocls::no_more_values_exception &) {
+                ks = 4;
+            } catch (...) {
+                ks = 9;
+            }
+            acc_co(*gen, AS_CONEXT, kc, dummy).detach();
+            if (ks != kc) R.fail("gen/styles-disagree-after-end", "after the end next() answers %d but co_await next() answers %d (1 value, 2 end, 4 no_more_values_exception)", ks, kc);
+        }
+        R.outcome(seqx::hash_str(d.str()));
+        R.state(seqx::hash_str(d.str()));
+    }
+    if (!R.case_fail && seqx::live_allocs() != base) R.fail("gen/allocation-balance", "%ld allocations not released", (long)(seqx::live_allocs() - base));
+    R.end(true);
+}
+static void enum_acc(seqx::Runner &R, int n, int len, std::vector<int> &st) {
+    if (R.stop()) return;
+    if ((int)st.size() == len) {
+        if (R.next_case()) run_acc(R, n, st);
+        return;
+    }
+    for (int s = 0; s < NAS; s++) {
+        st.push_back(s);
+        enum_acc(R, n, len, st);
+        st.pop_back();
+    }
+}
+
 }  // namespace
 
 void seqx_run(seqx::Runner &R, const std::string &tier) {
     seq_warmup();
+    for (int n = 0; n <= 2; n++) {
+        std::vector<int> st;
+        enum_acc(R, n, n + 2, st);  // every style sequence up to one access past the end
+    }
     std::vector<int> bs;
     if (tier == "quick")
         enum_body(R, 3, 4, bs);
@@ -355,6 +496,16 @@ void seqx_run(seqx::Runner &R, const std::string &tier) {
 
 void seqx_replay(seqx::Runner &R, const std::string &c) {
     seq_warmup();
+    if (c.rfind("accumulating;", 0) == 0) {
+        int n = atoi(c.c_str() + c.find("n=") + 2);
+        std::vector<int> st;
+        std::stringstream ss(c.substr(c.find("styles=") + 7));
+        std::string tok;
+        while (std::getline(ss, tok, ',')) st.push_back(atoi(tok.c_str()));
+        R.next_case();
+        run_acc(R, n, st);
+        return;
+    }
     bool with_arg = c.find("arg=1") != std::string::npos;
     auto parse = [&](const std::string &key, const char *const *names, int n) {
         std::vector<int> out;
